@@ -55,7 +55,8 @@ LABELS = (0.0, 1.0, 2.0, float("nan"))
 def bounds(tier, seed):
     if tier == "quick":
         return dict(n_complete=3, n_stratum=4, strata=64, stratum=seed % 64, funcs=len(QUICK_FUNCS))
-    return dict(n_complete=4, n_stratum=5, strata=8, stratum=seed % 8, funcs=len(THOROUGH_FUNCS))
+    # thorough: every option combination and all reductions on n<=3, one quarter of n=4 (reduced option set, numpy engine)
+    return dict(n_complete=3, n_stratum=4, strata=4, stratum=seed % 4, funcs=len(THOROUGH_FUNCS))
 
 
 def shards(tier, seed):
@@ -70,11 +71,13 @@ def shards(tier, seed):
                 nparts = 4 if n == b["n_complete"] else 1
                 for part in range(nparts):
                     out.append(dict(func=func, dtype=dtype, engine=egroup, n=n, part=part, nparts=nparts, full=True, tier=tier))
-            # one complete stratum of the next length
-            if tier == "quick" and egroup != "numpy":
+            # one complete stratum of the next length (reduced option set, numpy engine)
+            if egroup != "numpy":
                 continue
-            out.append(dict(func=func, dtype=dtype, engine=egroup, n=b["n_stratum"], part=b["stratum"],
-                            nparts=b["strata"], full=False, tier=tier))
+            sub = 1 if tier == "quick" else 8
+            for k in range(sub):
+                out.append(dict(func=func, dtype=dtype, engine=egroup, n=b["n_stratum"], part=b["stratum"] * sub + k,
+                                nparts=b["strata"] * sub, full=False, tier="quick"))
     # deep two-label leg: many small blocks, so that cohorts span >= 4 blocks (merging, block subsetting, deeper trees)
     deep_ns = (5, 6, 7) if tier == "quick" else (5, 6, 7, 8)
     for func, dtype in (("sum", "float64"), ("nanmax", "float64"), ("nanargmax", "float64")):
